@@ -347,6 +347,14 @@ def selector_subject(draw, version=None, typ=None):
         doc[k] = FALSY_CUSTOM[k]
     if draw(st.booleans()):
         doc.update(pick(draw, NESTED_CUSTOM))
+    # path-order traps: "[10]" sorts before "[2]" as text, and "-" / "_" sort around "." -- a walk must not rely on text order
+    r = draw(st.integers(0, 11))
+    if r == 0:
+        doc["labels"] = ["l%d" % (i % 9) for i in range(pick(draw, [11, 12, 13]))]
+    elif r == 1:
+        doc["x_long"] = [{"k": i, "kk": [i, i]} for i in range(pick(draw, [11, 12]))]
+    elif r == 2:
+        doc["x_sib"] = {"abc": {"k": 1, "z": 0}, "abc-x": 2, "abc_y": {"z": 0}, "ab": [0, 1]}
     return doc
 
 
